@@ -27,8 +27,12 @@ ZSub(k, n) == S!ZOfBn(FALSE, S!BnSub(S!BnShl(<<1>>, k), S!BnFromInt(n)))      \*
 ZNeg(z) == S!NumNeg(z)
 
 (* ---- Go values ----------------------------------------------------------- *)
+(* boundary values per width: the ends of the range, and just beyond the range of every narrower width *)
+(* (2^w + 44 and, signed, -(2^(w-1)) - 1), so that a truncation to any narrower width changes the value  *)
+Crossing(k) == {ZAdd(w, 44) : w \in {w \in {8, 16, 32} : w < S!Bits(k)}}
+               \cup (IF k \in S!SIntKinds THEN {ZNeg(ZAdd(w - 1, 1)) : w \in {w \in {8, 16, 32} : w < S!Bits(k)}} ELSE {})
 IntVals(k) ==
-    {S!LoOf(k), S!HiOf(k), I(0), I(1), I(7)}
+    {S!LoOf(k), S!HiOf(k), I(0), I(1), I(7)} \cup Crossing(k)
     \cup (IF k \in S!SIntKinds THEN {I(-1)} ELSE {})
     \cup (IF S!Bits(k) = 64
           THEN {ZSub(53, 1), P2(53), ZAdd(53, 1), ZAdd(53, 2), ZSub(63, 1), ZSub(63, 1025), ZSub(63, 512)}
@@ -60,7 +64,15 @@ StrVals == {<<>>, U_abc, U_e, U_zh, U_smile, U_mix, <<49, 50>>, <<32, 49, 50, 32
             <<45, 48>>, <<73, 110, 102, 105, 110, 105, 116, 121>>, <<49, 46, 53>>, <<46>>, <<57, 50, 50, 51, 51, 55, 50, 48, 51, 54, 56, 53, 52, 55, 55, 53, 56, 48, 56>>}
 GStrs == {S!GStr(s) : s \in StrVals} \cup (IF Tier = "thorough" THEN {S!GStr(S!TestStrings[i]) : i \in 1..Len(S!TestStrings)} ELSE {})
 
-Scalars == {S!GNil, S!GPtrNil, S!GBool(TRUE), S!GBool(FALSE)} \cup GInts \cup GFlts \cup GStrs
+(* every scalar also behind a pointer and as a declared named type of its kind *)
+WrapBase == GInts \cup {S!GFlt("float32", n) : n \in {I(0), S!NZero, Canon(FALSE, <<3>>, -1), Canon(FALSE, S!BnFromInt(13421773), -27), S!NaN, S!MaxF32}}
+            \cup {S!GFlt("float64", n) : n \in {I(0), S!NZero, Canon(FALSE, <<3>>, -1), S!DecToNum(FALSE, <<1>>, -1), S!NaN, S!PInf, P2(53), P2(64)}}
+            \cup {S!GStr(<<>>), S!GStr(U_e), S!GStr(U_smile), S!GStr(<<49, 50>>), S!GBool(TRUE), S!GBool(FALSE)}
+Wrapped == {S!GPtr(g) : g \in WrapBase} \cup {S!GNamed(g) : g \in WrapBase}
+           \cup {S!GPtr(S!GNamed(g)) : g \in {gg \in GInts : gg.z = S!HiOf(gg.k)}}
+           \cup {S!GPtr(S!GPtr(g)) : g \in {gg \in GInts : gg.z = S!LoOf(gg.k)}}
+           \cup {S!GNilPtr(k) : k \in S!NumKinds \cup {"string", "bool"}}
+Scalars == {S!GNil, S!GPtrNil, S!GBool(TRUE), S!GBool(FALSE)} \cup GInts \cup GFlts \cup GStrs \cup Wrapped
 
 (* leaves of containers *)
 Leaves == {S!GNil, S!GBool(TRUE), S!GInt("int", I(1)), S!GInt("int64", ZAdd(53, 1)), S!GInt("uint8", I(255)),
@@ -93,7 +105,31 @@ Nested == {S!GSlice("iface", FALSE, <<x, y>>) :
           \cup {S!GMap("iface", FALSE, <<K_a, K_b>>, <<x, y>>) :
               x \in {S!GSlice("iface", FALSE, <<S!GNil, S!GStr(U_e)>>), S!GMap("iface", FALSE, <<>>, <<>>)},
               y \in {S!GBool(FALSE), S!GSlice("string", FALSE, <<S!GStr(<<97>>)>>)}}
-Containers == IfaceSlices \cup IfaceMaps \cup TypedSlicesOK \cup IntMaps \cup Structs \cup Nested
+(* maps keyed by every integer kind (and by its named type), keys at the ends of the range and beyond the *)
+(* narrower widths, in the code-unit order of their decimal text *)
+RECURSIVE InsSorted(_, _)
+InsSorted(seq, z) == IF seq = <<>> THEN <<z>>
+                     ELSE IF S!StrCmp(S!DigitsZ(z), S!DigitsZ(seq[1])) < 0 THEN <<z>> \o seq
+                     ELSE <<seq[1]>> \o InsSorted(Tail(seq), z)
+RECURSIVE SortKeys(_)
+SortKeys(seq) == IF seq = <<>> THEN <<>> ELSE InsSorted(SortKeys(Tail(seq)), seq[1])
+KeySeq(k) == SortKeys(SetToSeq({S!LoOf(k), S!HiOf(k), I(1)} \cup Crossing(k)))
+StrOfIdx(i) == S!GStr(<<96 + i>>)
+IMaps == {S!GIMap(k, nm, "string", FALSE, KeySeq(k), [i \in 1..Len(KeySeq(k)) |-> StrOfIdx(i)]) : k \in S!IntKinds, nm \in BOOLEAN}
+         \cup {S!GIMap(k, FALSE, "named:" \o k, FALSE, <<I(1)>>, <<S!GNamed(S!GInt(k, S!HiOf(k)))>>) : k \in S!IntKinds}
+         \cup {S!GIMap("uint16", nm, "int", isnil, <<>>, <<>>) : nm \in BOOLEAN, isnil \in BOOLEAN}
+(* slices and string-keyed maps whose elements have a named numeric type; a struct with a field of every named integer type *)
+NamedSeq(k) == IF k \in S!IntKinds THEN [i \in 1..Len(KeySeq(k)) |-> S!GNamed(S!GInt(k, KeySeq(k)[i]))]
+               ELSE <<S!GNamed(S!GFlt(k, Canon(FALSE, <<3>>, -1))), S!GNamed(S!GFlt(k, S!NZero)), S!GNamed(S!GFlt(k, IF k = "float32" THEN S!MaxF32 ELSE P2(64)))>>
+NamedSlices == {S!GSlice("named:" \o k, FALSE, NamedSeq(k)) : k \in S!NumKinds \ {"uint8"}}     \* encoding/json prints byte slices as base64: not generated
+               \cup {S!GMap("named:" \o k, FALSE, <<K_a, K_b>>, <<NamedSeq(k)[1], NamedSeq(k)[Len(NamedSeq(k))]>>) : k \in S!NumKinds}
+               \cup {S!GSlice("named:string", FALSE, <<S!GNamed(S!GStr(U_smile))>>), S!GSlice("named:bool", FALSE, <<S!GNamed(S!GBool(TRUE))>>)}
+NSKinds == <<"int", "int8", "int16", "int32", "int64", "uint", "uint8", "uint16", "uint32", "uint64">>
+NSFields(pick(_)) == [i \in 1..10 |-> S!GNamed(S!GInt(NSKinds[i], pick(NSKinds[i])))]
+NStructs == {S!GNStruct(p, NSFields(S!LoOf) \o <<S!GNamed(S!GFlt("float64", S!NZero))>>) : p \in BOOLEAN}
+            \cup {S!GNStruct(p, NSFields(S!HiOf) \o <<S!GNamed(S!GFlt("float64", P2(64)))>>) : p \in BOOLEAN}
+            \cup {S!GNStruct(p, NSFields(LAMBDA k : IF S!Bits(k) = 8 THEN I(100) ELSE ZAdd(S!Bits(k) \div 2, 44)) \o <<S!GNamed(S!GFlt("float64", Canon(FALSE, <<3>>, -1)))>>) : p \in BOOLEAN}
+Containers == IfaceSlices \cup IfaceMaps \cup TypedSlicesOK \cup IntMaps \cup Structs \cup Nested \cup IMaps \cup NamedSlices \cup NStructs
 
 G2J == {[fam |-> "g2j", g |-> g] : g \in Scalars \cup Containers}
 
@@ -167,7 +203,7 @@ JsParts(v) == CASE v.t = "arr" -> <<"[">> \o JsItems(v.items, 1) \o <<"]">>
                 [] OTHER -> <<[lit |-> v]>>
 
 (* ---- expectations ---------------------------------------------------------- *)
-IsScalar(g) == g.k \notin {"slice", "map", "struct"}
+IsScalar(g) == S!Base(g).k \notin {"slice", "map", "struct", "imap", "nstruct"}
 ConvR(r) == [thr |-> r.thr, v |-> r.v, log |-> r.log]
 Expect(B(_), c) ==        \* B(op) selects the instance: see Emit
     CASE c.fam = "g2j" ->
@@ -180,7 +216,7 @@ Expect(B(_), c) ==        \* B(op) selects the instance: see Emit
                       str |-> IF g.k \in S!IntKinds THEN B("ScriptString")[g] ELSE ts, exp |-> B("Export")[g],
                       toInt |-> B("ToIntegerG")[g], toFloat |-> B("ToFloatG")[g], toStr |-> ts, toBool |-> B("ToBooleanG")[g],
                       json |-> B("GoJSON")[g]]
-            ELSE [js |-> j, ty |-> B("TypeOf")[j], exp |-> B("Export")[g], json |-> B("GoJSON")[g]]
+            ELSE [js |-> j, ty |-> B("TypeOf")[j], forin |-> S!ForInKeys(j), exp |-> B("Export")[g], json |-> B("GoJSON")[g]]
       [] c.fam = "j2g" ->
             LET v == c.v
                 base == [undef |-> v.t = "undef", null |-> v.t = "null", bool |-> v.t = "bool", num |-> v.t = "num", str |-> v.t = "str",
@@ -245,6 +281,6 @@ Next == /\ cs = None
 Emit ==
     cs = None \/
     LET es == Expect(TabS, cs)
-        ed == Expect(TabL, cs)
+        ed == IF cs.fam = "g2j" /\ L!G2JPanics(cs.g) THEN [gopanic |-> TRUE] ELSE Expect(TabL, cs)
     IN  PrintT("VJSON " \o ToJson([c |-> cs, js |-> Js(cs), exp |-> es, dev |-> IF ed = es THEN <<>> ELSE <<ed>>]))
 =============================================================================
